@@ -174,6 +174,8 @@ def gen_fn(item, src_text, stripped, relfile, log, dropped_hints, env):
 def _finish_fn(item, sig, body, sig_line, body_line, qual, impl_header, relfile, log, dropped_hints, env, stripped=None, lo=0):
     name = item['name']
     rules = list(item.get('rules', []))
+    from . import rules as RL4
+    body = RL4.r4_option_combinators(body, log, body_line, qual)
     if item.get('engine') and item.get('r3'):
         from . import rules as RL
         try:
